@@ -87,5 +87,16 @@ PROPS['C08'] = {
             'pairs other than L2NormSquared (Lp / indicator balls, KL, Huber, QuadraticForm) are not under contract',
     'technique': 'contract-based deductive verification: conjugation rules and Moreau identity as postconditions over abstract conjugates / proximals, z3 + polynomial normal form',
 }
+PROPS['C07'] = {
+    'level': 'proof',
+    'text': 'Deductive: for the pointwise closed-form proximals (L1, L2^2, their conjugates, box, Huber, constant; scalar and per-point sigma, with/without g) '
+            'the value returned by the real _call at the generic index of an arbitrary weighted space is proved by z3 to minimise phi(z) + (z-x_i)^2/(2 sigma_i) '
+            'over ALL real z (and to satisfy the constraint); KL conjugate by stationarity; proximal_l2 by sub-gradient optimality in the space norm; the calculus '
+            'rules (translation, argument / positive scaling, quadratic perturbation, offset, conjugation, Bregman) by reduction of (x-p)/sigma in subdiff h(p) '
+            'to the prox characterisation of the abstract part.',
+    'note': 'trusted: pyvc interpreter, element-API contracts, separability, sub-differential calculus and prox characterisation (A6), eps fudge factors = 0. '
+            'Not reached: sort/SVD/Lambert-W based proximals, product-space (group) proximals, SeparableSum',
+    'technique': 'contract-based deductive verification: optimality over all z as a postcondition at the generic index (z3 QF_NRA), sub-differential calculus for derived functionals',
+}
 for _k in PROPS:
     NOT_APPLICABLE.pop(_k, None)
